@@ -313,7 +313,7 @@ INLINES = [("assign", "z = x | upcase"), ("echo", "x"), ("cycle", "'a', 'b'"), (
 BLOCKS = {"if": ["a", "a and b", "not a", "x == 'X'"], "unless": ["a", "a or b"], "case": ["x", "a"], "for": ["i in l", "i in (1..3) limit:2", "i in l reversed"],
           "tablerow": ["i in l cols:2", "i in l"], "capture": ["z"], "ifchanged": [""]}
 TEXTS = ["a", " b ", "x\ny", "1", "-"]
-RAWS = ["{{ x }}", "{% if %}", "a{{b", "{%"]
+RAWS = ["{{ x }}", "{% if %}", "a{{b", "{%", "{", "a{", "{{", "%}{"]
 
 
 def gen_trees(ck):
@@ -1059,7 +1059,7 @@ CORPUS = [
     "{{ 'a\\b' }}", "{{ 'a\nb' }}", "{{ [x] }}", "{{ [\"a b\"].k }}", "{{ d[\"it's\"] }}", "{% cycle 'a b': 1, 2 %}",
     "{% cycle 'g': 1, 2 %}{% cycle g: 1, 2 %}{% cycle 'h': 1, 2 %}",
     "{% tablerow i in l cols:2 %}{{ i }}{% endtablerow %}", "{% for i in l %}{% ifchanged %}{{ i }}{% endifchanged %}{% endfor %}",
-    "{% raw %}{{ x }}{% endraw %}", "{{ x if not a and b else 'z' }}", "{{ x if (a or b) and c }}",
+    "{% raw %}{{ x }}{% endraw %}", "{% raw %}{{% endraw %}{{ x }}", "{% raw %}a{{% endraw %}{% if a %}b{% endif %}", "{{ x if not a and b else 'z' }}", "{{ x if (a or b) and c }}",
     # (one per repaired defect of the expression serialisers first, then variants)
     "{{ d['if'] }}", "{% increment ['a b'] %}", "{% include 'p' with a? %}", "{{ x | append: a? }}", "{{ 0.00001 }}",
     "{{ d['empty'].limit }}", "{% assign ['a b'] = 1 %}{{ a }}", "{% for ['a b'] in l %}{{ i }}{% endfor %}", "{% capture ['if'] %}x{% endcapture %}",
